@@ -61,6 +61,14 @@ def run(ctx):
     if len(ext_docs) < 20 or not any(e["id"] == "ext:channel_id_old" for e in ext_docs):
         raise vlib.Machinery("C32 vacuity: only %d per-extension JSON documents (skipped: %r)" % (len(ext_docs), ext_skipped))
     jh += ext_docs
+    # list-valued members listing EVERY value of the dictionary they are named from (code point 0 included)
+    jl = ctx.drv("jsonlists", {"sni": "example.com", "bases": EXT_BASES}, prog="gen", name="jl", timeout=1200)
+    list_docs = [e for e in jl if e["ev"] == "JsonHello"]
+    need = {"list:ke_modes", "list:ec_point_format_list", "list:compress_certificate", "list:named_group_list",
+            "list:supported_signature_algorithms", "list:compression_methods"}
+    if not need <= {e["id"] for e in list_docs} or not any(e["id"].startswith("list:cipher_suites") for e in list_docs):
+        raise vlib.Machinery("C32 vacuity: all-values list documents missing: %r" % sorted(need - {e["id"] for e in list_docs}))
+    jh += list_docs
     long_sni = ".".join(["w" * 60, "x" * 60, "y" * 60, "z" * 50, "example.com"])      # pushes mid-size hellos above 511 bytes
     jh += ctx.drv("jsonhellos", {"ids": pad_ids, "n": 1, "sni": long_sni, "padlens": PADLENS}, prog="gen", name="jh6", timeout=1200)
     jh += ctx.drv("jsonhellos", {"ids": RANDOMIZED, "n": 40 if ctx.quick else 400, "sni": "example.com"}, prog="gen", name="jh3", timeout=1200)
@@ -120,9 +128,12 @@ def run(ctx):
         ndict = len(rows)
         by_sni = {}
         ext_again = False
+        list_again = False
         for sig, items in rejected.items():
             for ev, why in items:
-                if ev["ev"] == "JsonHello" and ev["id"].startswith("ext:"):
+                if ev["ev"] == "JsonHello" and ev["id"].startswith("list:"):
+                    list_again = True
+                elif ev["ev"] == "JsonHello" and ev["id"].startswith("ext:"):
                     ext_again = True
                 elif ev["ev"] == "JsonHello":
                     g = by_sni.setdefault(bytes(ev["sni"]).decode(), {"ids": set(), "pads": set(), "plain": False})
@@ -136,6 +147,9 @@ def run(ctx):
                             prog="gen", name="jh_again%d" % k, timeout=1200)
         if ext_again:
             rows += [e for e in ctx.drv("jsonexts", {"sni": "example.com", "bases": EXT_BASES}, prog="gen", name="jx_again", timeout=1200)
+                     if e["ev"] == "JsonHello"]
+        if list_again:
+            rows += [e for e in ctx.drv("jsonlists", {"sni": "example.com", "bases": EXT_BASES}, prog="gen", name="jl_again", timeout=1200)
                      if e["ev"] == "JsonHello"]
         rj, _ = validate(ctx, rows, "c32_again")
         resigs = {sig_of(w) for _, w in rj}
@@ -161,7 +175,7 @@ def run(ctx):
            "rule": "evaluations = entries of the value-indexed tables resolved through their name-indexed twin (exhaustive over %d table pairs) + parrot/randomized wire hellos put through raw import and JSON import; distinct = table entries + ClientHelloIDs whose JSON-built hello was compared with the raw-import hello" % len(dicts),
            "samples": [{"table": dicts[0]["table"], "first_entry": {"value": int.from_bytes(bytes(dicts[0]["vi"][0]["v"]), "big"), "name": bytes(dicts[0]["vi"][0]["n"]).decode()}},
                        {"id": good["id"], "json": bytes(good["json"]).decode()[:400]}],
-           "tables": len(dicts), "table_entries": nentries, "hellos": len(jh), "hellos_compared": compared, "per_extension_documents": sorted(e["id"][4:] for e in ext_docs), "per_extension_skipped": ext_skipped, "explicit_padding_lengths": PADLENS, "explicit_non_boring_padding_compared": explicit,
+           "tables": len(dicts), "table_entries": nentries, "hellos": len(jh), "hellos_compared": compared, "per_extension_documents": sorted(e["id"][4:] for e in ext_docs), "per_extension_skipped": ext_skipped, "all_values_list_documents": sorted(e["id"][5:] for e in list_docs), "explicit_padding_lengths": PADLENS, "explicit_non_boring_padding_compared": explicit,
            "explicit_padding_by_unpadded_size": unp,
            "not_describable_in_json": {k: sorted(v) for k, v in undescribed.items()},
            "exhaustive": False, "exhaustive_part": "all entries of all %d exported table pairs" % len(dicts)}
